@@ -16,6 +16,13 @@ verus! {
 //@ include prelude/error.rs
 //@ include prelude/btree_range.rs
 
+// derive(Debug) of falcon::Error re-supplied (needed by `Result::unwrap`'s trait bound only; the
+// formatter output is never inspected by verified code): opaque, no contract.
+impl std::fmt::Debug for Error {
+    #[verifier::external_body]
+    fn fmt(&self, f: &mut std::fmt::Formatter<'_>) -> std::fmt::Result { unimplemented!() }
+}
+
 // ---- il::Constant / il::Expression / executor::eval: contracts imported from unit C04 ---------
 pub mod il {
 use super::*;
@@ -78,6 +85,7 @@ use std::ops::Bound::Included;
 use std::ops::Bound::{Excluded, Unbounded};
 
 //@ include units/C16/bytes_spec.rs
+//@ include units/C16/get_spec.rs
 //@ include units/C16/backing.rs
 
 proof fn vf_canary_backing() ensures false {}
